@@ -3,6 +3,7 @@ package main
 import (
 	"encoding/json"
 	"fmt"
+	"math"
 	"math/rand"
 	"sync"
 
@@ -129,6 +130,21 @@ func c18(args []string) error {
 							if ser.PointAt(i) != pts[i] {
 								bad(obj{"op": "pointat", "ring": r.ring, "closed": true, "i": i, "got": "other", "exp": r.ring[i], "map": mp.Name})
 							}
+						}
+					}
+					// a closing vertex that repeats the first one with a zero of the other sign is still a repetition (-0 = 0): the
+					// segment count of the closed series does not change (identity map only: the zero must stay a zero)
+					if mp.Name == "id" && n >= 2 && r.ring[n-1][0] == r.ring[0][0] && r.ring[n-1][1] == r.ring[0][1] && (r.ring[0][0] == 0 || r.ring[0][1] == 0) {
+						p0 := append([]geometry.Point{}, pts...)
+						if r.ring[0][0] == 0 {
+							p0[n-1].X = math.Copysign(0, -1)
+						}
+						if r.ring[0][1] == 0 {
+							p0[n-1].Y = math.Copysign(0, -1)
+						}
+						le++
+						if got := geometry.NewPoly(p0, nil, &opts).Exterior.NumSegments(); got != len(r.segsClosed) {
+							bad(obj{"op": "nseg", "ring": r.ring, "closed": true, "got": got, "exp": len(r.segsClosed), "map": mp.Name, "index": ci, "enc": "closing vertex spelled with -0"})
 						}
 					}
 					// open series as given
